@@ -96,6 +96,15 @@ func routeGen(kind string, sequential bool) func(r *rand.Rand, tier string) []sp
 				}
 				p.Items = append(p.Items, it)
 			}
+			if kind == "mux" && i%4 == 2 {
+				// one pair whose accept comes late in the dial's pending window (4.0 s) and is then held for
+				// 1.3 s between pick-up and acknowledgement, across the moment the parked dial would have
+				// expired: both calls must still succeed and be each other's peers
+				for k, side := range []string{"host", "plugin"} {
+					p.Items = append(p.Items, spec.RouteItem{Dir: side, AcceptFirst: false, GapMs: 4000, HoldAtPickupMs: 1300, Len: r.Intn(3000),
+						ID: 4000000 + uint32(len(out))*4 + uint32(k)})
+				}
+			}
 			if kind == "mux" {
 				p.DispG, p.DispN = 1+r.Intn(6), 1+r.Intn(5)
 				if wrapIDs {
